@@ -145,6 +145,8 @@ def div(ctx, a, b):
         if b == 0:
             raise ZeroDivisionError
         return mul(a, Fraction(1, 1) / Fraction(b))
+    if b.eq(SQRT2):
+        return mul(a, HSQRT2)          # division-free encoding (DESIGN 2.5)
     key = (Z(a).get_id(), Z(b).get_id())
     q = ctx.div_cache.get(key)
     if q is None:
@@ -572,3 +574,23 @@ def exc_isinstance(kind, parent):
             return True
         k = EXC_PARENTS.get(k)
     return False
+
+
+_CONST_SUBST = None
+
+
+def num(x):
+    """Concrete float of a value that may contain the symbolic constants PI/SQRT2/HSQRT2."""
+    global _CONST_SUBST
+    if not is_sym(x):
+        return float(x)
+    if _CONST_SUBST is None:
+        import math
+        def q(v):
+            f = Fraction(v)
+            return z3.Q(f.numerator, f.denominator)
+        _CONST_SUBST = [(PI, q(math.pi)), (SQRT2, q(math.sqrt(2))), (HSQRT2, q(1 / math.sqrt(2)))]
+    v = conc(z3.simplify(z3.substitute(x, *_CONST_SUBST)))
+    if is_sym(v):
+        raise TypeError(f"not a concrete number: {v}")
+    return float(v)
